@@ -18,7 +18,7 @@ import (
 // throw was presented at the start node and is not heard again at the error node.
 
 type fussyCase struct {
-	Kind    string   `json:"fussy_kind"` // listening | default | branchless : the error node
+	Kind    string   `json:"fussy_kind"` // listening | default | branchless : the error node; optional-var: no guard, a pattern with an optional variable
 	Seq     []string `json:"seq"`        // n (normal, to all) | B (boom, to all) | b1 (boom to r1) | n1 (normal to r1)
 	ViaLoop bool     `json:"via_loop,omitempty"`
 }
@@ -33,6 +33,12 @@ func fussySpec(kind string) *core.Spec {
 			Branches: &core.Branches{Branches: []*core.Branch{{Target: "start"}}}},
 	}}
 	switch kind {
+	case "optional-var":
+		// the receiving branch asks for the trail and, optionally, a note (an optional pattern variable): a message
+		// without a note matches as well
+		s.Nodes["start"] = &core.Node{Branches: &core.Branches{Type: "message", Branches: []*core.Branch{{Pattern: map[string]interface{}{"trail": "?tr", "note": "??n"}, Target: "rec"}}}}
+		s.Nodes["rec"] = &core.Node{ActionSource: &core.ActionSource{Interpreter: "ecmascript", Source: `var log = _.bindings.log || []; log.push(_.bindings["?tr"]); return {log: log, mode: "none"};`},
+			Branches: &core.Branches{Branches: []*core.Branch{{Target: "start"}}}}
 	case "listening":
 		s.Nodes["error"] = &core.Node{Branches: &core.Branches{Type: "message", Branches: []*core.Branch{{Pattern: "?m", Target: "rec"}}}}
 	case "branchless":
@@ -70,7 +76,9 @@ func fussyRun(cs fussyCase) (vs [][2]string) {
 		for _, id := range rcpt {
 			switch at[id] {
 			case "start":
-				if boom {
+				if cs.Kind == "optional-var" {
+					want[id] = append(want[id], trail) // no guard: every message is heard
+				} else if boom {
 					at[id] = "error"
 				} else {
 					want[id] = append(want[id], trail)
@@ -157,7 +165,7 @@ func c14Fussy(c *vh.Ctx, idx *uint64) {
 			rec(append(seq, a), kind)
 		}
 	}
-	for _, kind := range []string{"listening", "default", "branchless"} {
+	for _, kind := range []string{"listening", "default", "branchless", "optional-var"} {
 		rec(nil, kind)
 	}
 }
